@@ -465,6 +465,24 @@ func init() {
 		out = append(out, x.semiVal(cs[from:]))
 		return out
 	})
+	wrap("strings.SplitAfter", func(fr *frame, cs []schar, pat string, args []value) value {
+		x := fr.i.x
+		if pat == "" {
+			x.abandon("strings.SplitAfter with an empty separator on a semi-symbolic string")
+		}
+		var out []value
+		from := 0
+		for {
+			i := x.semiIndex(cs, pat, from)
+			if i < 0 {
+				break
+			}
+			out = append(out, x.semiVal(cs[from:i+len(pat)]))
+			from = i + len(pat)
+		}
+		out = append(out, x.semiVal(cs[from:]))
+		return out
+	})
 	wrap("strings.ContainsAny", func(fr *frame, cs []schar, pat string, args []value) value {
 		for _, c := range cs {
 			for j := 0; j < len(pat); j++ {
